@@ -57,9 +57,12 @@ def shrink(line, which):
     return l2, judge(l2, which)
 
 
-def describe(line, verdict, kind):
+def describe(line, verdict, kind, prop="C20", tag=None):
     lo, hi, mx, ops = parse_case(line)
-    s = "property: C20\nkind: %s\nrange: [%d,%d] type-max %d\nops:\n" % (kind, lo, hi, mx)
+    s = "property: %s\n" % prop
+    if tag:
+        s += "stage: %s\n" % tag
+    s += "kind: %s\nrange: [%d,%d] type-max %d\nops:\n" % (kind, lo, hi, mx)
     for t, a in ops:
         s += "  %s %d\n" % (TAGS[t], a)
     s += "verdict: %s\n" % verdict
@@ -67,11 +70,11 @@ def describe(line, verdict, kind):
     s += "   from the set specification, detail = specified answer; 906 3 = interval list is not the canonical\n"
     s += "   representation, detail = expected intervals; 903/904 = model answer/state differs)\n"
     s += "case-line: %s\n" % line
-    s += "replay: ./check C20 --replay <this file>\n"
+    s += "replay: ./check %s --replay <this file>\n" % prop
     return s
 
 
-def replay(path):
+def replay(path, prop="C20"):
     line = None
     for l in open(path):
         if l.startswith("case-line: "):
@@ -96,21 +99,29 @@ def replay(path):
 
 
 def run(tier, seed, t0):
+    return run_alloc("C20", None, tier, seed, t0)
+
+
+def run_alloc(PROP, tag, tier, seed, t0):
+    """the allocator check; as a stage of another property (tag set) it runs a smaller sample, skips the
+    theorem obligations (the property's own run reads them) and names its replay files after the stage"""
     bad = C.hygiene()
     if bad:
         raise C.CheckError("forbidden tokens in the development: %s" % bad)
     ok, out = C.coq_make()
     if not ok:
         raise C.CheckError("Coq build failed:\n" + out[-3000:])
-    ob = C.property_obligations(PROP)
+    ob = C.property_obligations(PROP) if tag is None else dict(ok=True, theorems=[], examples=[], assumptions=[], problems=[], out="")
     C.build_checker()
     ok, out = C.build_harness()
     if not ok:
         raise C.CheckError("harness build failed against /repo:\n" + out[-3000:])
 
-    n = 3000 if tier == "quick" else 150000
-    cases_path = os.path.join(C.RUN, "C20.cases")
-    stats_path = os.path.join(C.RUN, "C20.stats")
+    n = (3000 if tier == "quick" else 150000) if tag is None else (1500 if tier == "quick" else 40000)
+    stem = PROP if tag is None else "%s-%s" % (PROP, tag)
+    kpre = "" if tag is None else tag + "-"
+    cases_path = os.path.join(C.RUN, "%s.cases" % stem)
+    stats_path = os.path.join(C.RUN, "%s.stats" % stem)
     args = ["alloc", "--seed", seed, "--n", n, "--out", cases_path, "--stats", stats_path]
     if tier == "thorough":
         args += ["--enum", "4,4"]
@@ -119,7 +130,7 @@ def run(tier, seed, t0):
     C.harness(args)
     gen = [l.rstrip("\n") for l in open(cases_path)]
     corpus = []
-    cp = os.path.join(C.CORPUS, "C20.cases")
+    cp = os.path.join(C.CORPUS, "C20.cases")   # the allocator corpus runs in every allocator stage too
     if os.path.exists(cp):
         for l in open(cp):
             l = l.strip()
@@ -149,34 +160,34 @@ def run(tier, seed, t0):
             nontrivial.add(l)
 
     if not ob["ok"]:
-        p = C.write_replay(PROP, "obligation", "property: C20\nkind: obligation\nfailing: %s\n%s\n" % (ob["problems"], ob["out"][-3000:]))
+        p = C.write_replay(PROP, "obligation", "property: " + PROP + "\nkind: obligation\nfailing: %s\n%s\n" % (ob["problems"], ob["out"][-3000:]))
         C.violation(PROP, p, no_input=True)
         violations += 1
         rc = 1
     if mon_fail:
         i = mon_fail[0]
         small, v = shrink(lines[i], "alloc_mon")
-        p = C.write_replay(PROP, "monitor-%d" % seed, describe(small, v, "monitor (implementation trace violates the set specification)"))
+        p = C.write_replay(PROP, "%smonitor-%d" % (kpre, seed), describe(small, v, "monitor (implementation trace violates the set specification)", PROP, tag))
         C.violation(PROP, p)
         violations += len(mon_fail)
         rc = 1
     elif cor_fail:
         # model and implementation differ but the specification was met on everything so far:
         # targeted search with a 10x budget before giving up
-        extra_path = os.path.join(C.RUN, "C20.search.cases")
+        extra_path = os.path.join(C.RUN, "%s.search.cases" % stem)
         C.harness(["alloc", "--seed", seed + 7919, "--n", 10 * n, "--out", extra_path, "--enum", "4,4"])
         extra = [l.rstrip("\n") for l in open(extra_path)]
         v2 = C.run_checker(extra, rename="alloc_mon")
         hit = [j for j, v in enumerate(v2) if v is not None]
         if hit:
             small, v = shrink(extra[hit[0]], "alloc_mon")
-            p = C.write_replay(PROP, "monitor-%d" % seed, describe(small, v, "monitor (found by targeted search after a correspondence mismatch)"))
+            p = C.write_replay(PROP, "%smonitor-%d" % (kpre, seed), describe(small, v, "monitor (found by targeted search after a correspondence mismatch)", PROP, tag))
             C.violation(PROP, p)
         else:
             small, v = shrink(lines[cor_fail[0]], "alloc")
-            body = describe(small, v, "correspondence")
+            body = describe(small, v, "correspondence", PROP, tag)
             body += "no-longer-checked: correspondence Corr.AllocCorr.check_alloc (model Alloc.a_step vs ValueAllocator); theorem C20_alloc_refines_set is about the model only\n"
-            p = C.write_replay(PROP, "correspondence-%d" % seed, body)
+            p = C.write_replay(PROP, "%scorrespondence-%d" % (kpre, seed), body)
             C.violation(PROP, p, no_input=True)
         os.remove(extra_path)
         violations += len(cor_fail)
@@ -185,7 +196,7 @@ def run(tier, seed, t0):
     nthm = len(ob["theorems"])
     coverage = dict(
         obligations=nthm, discharged=nthm if ob["ok"] else 0,
-        checker_cmd="cd /verif/coq && make -j16 theories/Properties/C20.vo  (coqc 8.16.1; Print Assumptions re-read every run)",
+        checker_cmd="cd /verif/coq && make -j16 theories/Properties/%s.vo  (coqc 8.16.1; Print Assumptions re-read every run)" % PROP,
         trusted_base=C.TRUSTED_BASE,
         theorems=ob["theorems"], examples=ob["examples"], print_assumptions=ob["assumptions"],
         evaluations=len(lines), distinct_nontrivial=len(nontrivial),
